@@ -68,7 +68,7 @@ def run(ctx):
 
     # ---- (b) where-clause
     beh = ctx.tlc("SqlFilterMC", "SqlFilter_beh.cfg", timeout=3000, heap="4g", coverage=th,
-                  name="filter states to depth 2, full value alphabet: Where = Matches (+ export)")
+                  name="filter states to depth 2: Where = Matches (+ export)")
     ctx.require_model_ok(beh, "WhereSelectsExactly, PolaritiesComplement")
     if th and beh.zero_cov:
         ctx.log("zero coverage: %s" % beh.zero_cov)
@@ -84,6 +84,9 @@ def run(ctx):
         big = ctx.tlc("SqlFilterMC", "SqlFilter_mc_big.cfg", timeout=3000, heap="4g", keep_beh=False,
                       name="filter states to depth 3")
         ctx.require_model_ok(big, "WhereSelectsExactly, PolaritiesComplement")
+        odd = ctx.tlc("SqlFilterMC", "SqlFilter_odd.cfg", timeout=3000, heap="4g", keep_beh=False,
+                      name="depth 2 with the values no producer makes (empty string / zero in M, S, B)")
+        ctx.require_model_ok(odd, "WhereSelectsExactly, PolaritiesComplement")
         full = ctx.tlc("SqlFilterMC", "SqlFilter_full_big.cfg", timeout=3000, heap="4g", keep_beh=False,
                        name="depth 2 on the full row universe of both tags")
         ctx.require_model_ok(full, "WhereSelectsExactly, PolaritiesComplement")
@@ -117,6 +120,9 @@ def run(ctx):
     ctx.ev.assume("match(col, pattern) is evaluated by Go regexp (RE2 syntax, unanchored search) on the decoded pattern; TagFilter.Re2 means "
                   "the pattern as the storage evaluates it. promql/engine.go passes the PromQL matcher value unanchored while it selects the "
                   "mapped values with the anchored matcher - outside this property's layer, reported in the design notes")
+    ctx.ev.assume("rows with a string in the column of a raw tag do not exist (RowOK): whether the code consults that column is left open; "
+                  "values no producer makes (NewTagValueS(\"\"), NewTagValueM(0), NewTagValue(\"\", n), NewTagValue(s, 0)) are model checked "
+                  "against the literal reading of Matches but not replayed on the code")
     ctx.ev.assume("a regex is only set together with string values it matches (Covered; the only producer, promql/engine.go, adds the values "
                   "the matcher accepts); with a regex present the code drops the string list")
     ctx.ev.assume("metrics without pre-key (lod.HasPreKey = false; the `_prekey` name of the pre-key path is not a column of the V3 tables), "
